@@ -370,3 +370,130 @@ Proof.
     destruct Hh as [<-|[]]. unfold target_transport in Et. apply route_transport_uses in Et. apply Et.
   - cbn [servers_ops run]. repeat constructor.
 Qed.
+
+(* ---- the whole exchange: the response-header limit covers the wait for the header only ---- *)
+
+(* spec side, independent of [deliver] / [exchange_with]: the body the upstream sends and the time
+   it needs for it, by list functions over the chunks *)
+Definition body_of (x : exchange) : str := concat (map snd (x_chunks x)).
+Definition body_time (x : exchange) : Z := fold_right Z.add 0 (map fst (x_chunks x)).
+(* "served normally": the upstream's status when the upstream gave it, all of its body, properly
+   ended, at the upstream's own time, from one request that reached the upstream whole *)
+Definition served_normally (x : exchange) (a : answer) : Prop :=
+  a_status a = x_status x /\ a_head_at a = x_upload x + x_delay x /\
+  a_body a = body_of x /\ a_complete a = true /\ a_done_at a = x_upload x + x_delay x + body_time x /\
+  a_request_whole a = true /\ a_hits a = 1.
+(* "produces a 504 within that time": the limit counts from the moment the upstream has the request *)
+Definition timed_out_at_limit (limit : Z) (x : exchange) (a : answer) : Prop :=
+  a_status a = 504 /\ a_head_at a = x_upload x + limit /\ a_done_at a = x_upload x + limit /\
+  a_complete a = true /\ a_hits a = 1.
+Definition exchange_spec (limit : Z) (x : exchange) (a : answer) : Prop :=
+  (rht_hits limit (x_delay x) -> timed_out_at_limit limit x a) /\
+  (~ rht_hits limit (x_delay x) -> served_normally x a).
+
+Lemma deliver_none : forall chunks now,
+  deliver None now chunks = (concat (map snd chunks), true, now + fold_right Z.add 0 (map fst chunks)).
+Proof.
+  induction chunks as [|[gap b] r IH]; intros now; cbn [deliver past map concat fold_right fst snd].
+  - rewrite Z.add_0_r. reflexivity.
+  - rewrite IH. f_equal. lia.
+Qed.
+
+(* for EVERY limit (zero and negative: never), every upload time, header delay, status and every
+   body however long it takes *)
+Lemma exchange_meets_spec limit x : exchange_spec limit x (exchange_of_proxy limit x).
+Proof.
+  unfold exchange_spec, exchange_of_proxy, whole_deadline_of_proxy, exchange_with.
+  destruct (rht_expires limit (x_delay x)) eqn:E.
+  - apply rht_expires_iff in E. split; [|tauto]. intros _. repeat split; reflexivity.
+  - split; [intros H; apply rht_expires_iff in H; congruence|]. intros _.
+    rewrite deliver_none. unfold served_normally, body_of, body_time. cbn [a_status a_head_at a_body a_complete a_done_at a_request_whole a_hits].
+    repeat split; reflexivity.
+Qed.
+
+(* readable corollary: once the header came in time, no body is cut short and no gap between two
+   chunks is measured against the limit *)
+Lemma body_is_not_limited limit x :
+  ~ rht_hits limit (x_delay x) ->
+  a_body (exchange_of_proxy limit x) = body_of x /\ a_complete (exchange_of_proxy limit x) = true.
+Proof. intros H. destruct (exchange_meets_spec limit x) as (_ & S). destruct (S H) as (_ & _ & Hb & Hc & _). auto. Qed.
+
+(* status and time of the header are those of [serve] when nothing is uploaded *)
+Lemma exchange_head_is_serve limit x :
+  x_upload x = 0 ->
+  (a_status (exchange_of_proxy limit x), a_head_at (exchange_of_proxy limit x)) = serve limit (x_delay x) (x_status x).
+Proof.
+  intros U. unfold exchange_of_proxy, whole_deadline_of_proxy, exchange_with, serve. rewrite U.
+  destruct (rht_expires limit (x_delay x)); [reflexivity|].
+  rewrite deliver_none. reflexivity.
+Qed.
+
+(* a slow download and a slow upload under a short limit, and a silent upstream *)
+Example exchange_nonvacuous :
+  let slowbody := {| x_upload := 0; x_delay := 5; x_status := 200; x_chunks := [(0, bs "part1"%string); (3000, bs "part2"%string)] |} in
+  let slowupload := {| x_upload := 2500; x_delay := 20; x_status := 201; x_chunks := [(0, bs "ok"%string)] |} in
+  let silent := {| x_upload := 700; x_delay := 5000; x_status := 200; x_chunks := [(0, bs "late"%string)] |} in
+  ~ rht_hits 1000 (x_delay slowbody) /\ ~ rht_hits 1000 (x_delay slowupload) /\ rht_hits 1000 (x_delay silent) /\
+  exchange_of_proxy 1000 slowbody =
+    {| a_status := 200; a_head_at := 5; a_body := bs "part1part2"%string; a_complete := true; a_done_at := 3005; a_request_whole := true; a_hits := 1 |} /\
+  exchange_of_proxy 1000 slowupload =
+    {| a_status := 201; a_head_at := 2520; a_body := bs "ok"%string; a_complete := true; a_done_at := 2520; a_request_whole := true; a_hits := 1 |} /\
+  exchange_of_proxy 1000 silent =
+    {| a_status := 504; a_head_at := 1700; a_body := []; a_complete := true; a_done_at := 1700; a_request_whole := true; a_hits := 1 |}.
+Proof. unfold rht_hits. cbn [x_delay]. repeat split; try lia; reflexivity. Qed.
+
+(* About a HYPOTHETICAL deadline on the exchange as a whole (what one of the seeded changes puts
+   around it, with the response-header timeout as its value): the upstream answered its header in
+   time and yet its client gets a cut-off body. *)
+Lemma whole_deadline_refuted : exists limit x,
+  ~ rht_hits limit (x_delay x) /\
+  a_status (exchange_with (Some limit) limit x) = x_status x /\
+  a_complete (exchange_with (Some limit) limit x) = false /\
+  a_body (exchange_with (Some limit) limit x) <> body_of x.
+Proof.
+  exists 1000, {| x_upload := 0; x_delay := 5; x_status := 200; x_chunks := [(0, bs "part1"%string); (3000, bs "part2"%string)] |}.
+  split; [unfold rht_hits; cbn [x_delay]; lia|]. vm_compute. repeat split; discriminate.
+Qed.
+(* ... and a slow upload to an upstream that answers at once is refused *)
+Lemma whole_deadline_upload_refuted : exists limit x,
+  ~ rht_hits limit (x_delay x) /\ a_status (exchange_with (Some limit) limit x) = 504 /\ x_status x <> 504 /\
+  a_request_whole (exchange_with (Some limit) limit x) = false.
+Proof.
+  exists 1000, {| x_upload := 2500; x_delay := 20; x_status := 201; x_chunks := [(0, bs "ok"%string)] |}.
+  split; [unfold rht_hits; cbn [x_delay]; lia|]. vm_compute. repeat split; discriminate.
+Qed.
+
+(* No deadline on the exchange as a whole, whatever its value, is compatible with the property:
+   the spec holds for every limit and every upstream exactly when there is none. *)
+Lemma spec_iff_no_whole_deadline whole :
+  (forall limit x, exchange_spec limit x (exchange_with whole limit x)) <-> whole = None.
+Proof.
+  split.
+  - intros H. destruct whole as [d|]; [exfalso|reflexivity].
+    pose (x := {| x_upload := 0; x_delay := 0; x_status := 200; x_chunks := [(Z.max d 0, [1%N])] |}).
+    destruct (H 0 x) as (_ & S).
+    assert (N : ~ rht_hits 0 (x_delay x)) by (unfold rht_hits; lia).
+    destruct (S N) as (Hs & _ & _ & Hc & _). clear S H N.
+    unfold exchange_with, x in Hs, Hc. cbn [x_upload x_delay x_status x_chunks] in Hs, Hc.
+    destruct (d <=? 0) eqn:D0.
+    + cbn [a_status error_status] in Hs. discriminate.
+    + apply Z.leb_gt in D0.
+      replace (rht_expires 0 0) with false in Hc by reflexivity. cbn [andb] in Hc.
+      replace (d <=? 0 + 0) with false in Hc by (symmetry; apply Z.leb_gt; lia).
+      cbn [deliver past] in Hc.
+      replace (d <=? 0 + 0 + Z.max d 0) with true in Hc by (symmetry; apply Z.leb_le; lia).
+      cbn [a_complete] in Hc. discriminate.
+  - intros ->. exact exchange_meets_spec.
+Qed.
+
+(* composed with main()'s start-up and the proxy's transport choice: for every configuration, table,
+   target and exchange, the client of the chosen transport is answered as the spec of the
+   CONFIGURED response-header timeout says *)
+Lemma end_to_end_exchange s0 cfg tgs i tg x :
+  nth_error tgs i = Some tg ->
+  exists t, chosen (main_start set_config s0 cfg tgs) i = Some t /\
+    exchange_spec (l_rht cfg) x (exchange_of_proxy (t_rht t) x).
+Proof.
+  intros Hn. destruct (end_to_end s0 cfg tgs i tg 0 0 0 Hn) as (t & Hc & (Hr & _) & _).
+  exists t. split; [exact Hc|]. rewrite Hr. apply exchange_meets_spec.
+Qed.
